@@ -128,7 +128,8 @@ def kron(a, b):
     o_data = a.data[a_idx] * b.data[b_idx]
     o_shape = tuple(i * j for i, j in zip(a.shape, b.shape, strict=True))
 
-    return COO(o_coords, o_data, shape=o_shape, has_duplicates=False)
+    # a product of stored values can be zero (underflow, a stored -0.0): do not keep explicit zeros
+    return COO(o_coords, o_data, shape=o_shape, has_duplicates=False, prune=True)
 
 
 def concatenate(arrays, axis=0):
